@@ -1559,6 +1559,9 @@ package ecs
 //@   ensures oldRel != nil ==> validID(oldRel.id)
 //@   ensures w.listener == old(w.listener) && !isLocked(w)
 //@   ensures len(add) > 0 || len(rem) > 0 ==> w.entities[int(entity.id)].arch == arch && w.entities[int(entity.id)].index == old(arch.len)
+//@   hint (len(add) > 0 || len(rem) > 0) && arch.archetypeAccess.HasRelationComponent && hasRelation ==> arch.archetypeAccess.RelationTarget == target
+//@   hint (len(add) > 0 || len(rem) > 0) && arch.archetypeAccess.HasRelationComponent && !hasRelation && old(w.entities[int(entity.id)].arch.archetypeAccess.RelationTarget.id != 0 && meets(w.entities[int(entity.id)].arch.archetypeAccess.Mask, w.registry.IsRelation) && remHasRelation(w, rem, len(rem))) ==> arch.archetypeAccess.RelationTarget.id == 0 && arch.archetypeAccess.RelationTarget.gen == 0
+//@   hint (len(add) > 0 || len(rem) > 0) && arch.archetypeAccess.HasRelationComponent && !hasRelation && !old(w.entities[int(entity.id)].arch.archetypeAccess.RelationTarget.id != 0 && meets(w.entities[int(entity.id)].arch.archetypeAccess.Mask, w.registry.IsRelation) && remHasRelation(w, rem, len(rem))) ==> arch.archetypeAccess.RelationTarget == old(w.entities[int(entity.id)].arch.archetypeAccess.RelationTarget)
 //@   ensures (len(add) > 0 || len(rem) > 0) && arch.archetypeAccess.HasRelationComponent ==>
 //@       arch.archetypeAccess.RelationTarget == old(newTarget(w, w.entities[int(entity.id)].arch, rem, hasRelation, target))
 //@   ensures len(add) > 0 || len(rem) > 0 ==> oldTarget == old(w.entities[int(entity.id)].arch.archetypeAccess.RelationTarget)
@@ -1637,6 +1640,7 @@ package ecs
 // a cached filter that is not (or no longer) registered is refused - and a refused call opens no query: the lock state at the panic is the one at entry
 //@   panics_if is(filter, *CachedFilter) && !mapHas(w.filterCache.indices, as(filter, *CachedFilter).id)
 //@   on_panic lockSame(&w.locks)
+//@   flag panic_clean
 //@   modifies w.locks.locks.bits, *(&w.locks.bitPool)
 //@   ensures q.world == w && lockInv(&w.locks) && specBit(w.locks.locks, q.lockBit) && !old(specBit(w.locks.locks, q.lockBit)) && validID(q.lockBit)
 //@   ensures forall! b uint8 :: b != q.lockBit ==> specBit(w.locks.locks, b) == old(specBit(w.locks.locks, b))
